@@ -47,6 +47,12 @@ def formula_set(tier):
     fs = list(F.F(2, U, B, leaves))
     Uc = F.unary_ops(((0, 1), (1, 2)) if quick else F.I_QUICK, ops=EX_U)
     fs += list(F.chains(3, Uc, F.X))
+    # the same variable reached twice through different temporal windows (nested / overlapping / disjoint reported intervals)
+    Ut = F.unary_ops(((0, 3), (1, 2), (0, 1), (2, 3)), ops=('eventually', 'always', 'once', 'historically'))
+    for u in Ut:
+        for v in Ut:
+            for b in ('and', 'or', 'implies'):
+                fs.append((b, F.ap1(u, F.X), F.ap1(v, F.X)))
     out, seen = [], set()
     for f in fs:
         if f not in seen:
@@ -118,6 +124,8 @@ def run_shard(shard, tier, res):
             res.violation(mod, {'formula': fj, 'spec': text, 'vars': vs, 'trace': {}}, 'parse() raised %s' % (e,))
             continue
         n = 4
+        if len(vs) == 1 and F.size(f) == 3:
+            n = 5
         if tier != 'quick' and len(vs) == 1:
             n = 6
         prev = None
